@@ -80,7 +80,7 @@ func (c04) NumCases(tier string) int {
 func (c04) Exhaustive(tier string) bool { return tier == "thorough" }
 
 func (c04) Rule() string {
-	return fmt.Sprintf("exhaustive: all %d depth-1 numeric trees over 5 integer and 4 dyadic float constants, 3 row leaves and 3 constant calls, and (thorough: all %d, quick: 30000 sampled) depth-2 trees with one deep side; sampled: comparisons and Boolean combinations with constant sub-trees, re-association chains (x op c1 op c2 op c3.. for + and * incl. text concatenation), constant function calls, text expressions. Each evaluated with Execute (pair by pair) and ExecuteBatch (the 7 pairs in chunks of 3, 3 and 1) before and after Optimize(); a sample also through BuildPlan against the reference evaluator. Non-trivial: the rewrite changed the expression's String(); distinct by expression text.", len(c04Depth1), c04OneSided())
+	return fmt.Sprintf("exhaustive: all %d depth-1 numeric trees over 5 integer and 4 dyadic float constants, 3 row leaves and 3 constant calls, and (thorough: all %d, quick: 30000 sampled) depth-2 trees with one deep side; sampled: comparisons and Boolean combinations with constant sub-trees, re-association chains (x op c1 op c2 op c3.. for + and * incl. text concatenation), chains mixing + - * with unfolded constant sub-expressions as operands ((x + 2 * 3) * 4), constant function calls, text expressions. Each evaluated with Execute (pair by pair) and ExecuteBatch (the 7 pairs in chunks of 3, 3 and 1) before and after Optimize(); a sample also through BuildPlan against the reference evaluator. Non-trivial: the rewrite changed the expression's String(); distinct by expression text.", len(c04Depth1), c04OneSided())
 }
 
 func (c04) Assumptions() []string {
@@ -88,7 +88,8 @@ func (c04) Assumptions() []string {
 }
 
 func (c04) Gates(tier string, m map[string]int64) []rt.Gate {
-	gs := []rt.Gate{rt.GateMin("expressions compared", m, "compared", 10000)}
+	gs := []rt.Gate{rt.GateMin("rewritten Boolean expressions used as a named select field", m, "fullquery_named_field", 100),
+		rt.GateMin("expressions compared", m, "compared", 10000)}
 	gs = append(gs, rt.Gate{Name: "rewrite fired in >=30% of the compared expressions", Observed: m["rewrite_fired"], Need: m["compared"] * 3 / 10, OK: m["rewrite_fired"]*10 >= m["compared"]*3})
 	for _, cat := range []string{"constbin", "constcall", "boolconst", "chain", "textchain"} {
 		gs = append(gs, rt.GateMin("rewrite fired for category "+cat, m, "fired:"+cat, 10))
@@ -196,7 +197,29 @@ func c04Cmp(r *rt.Rand, constant bool) *gen.Node {
 var cmpNOps = []string{"=", "!=", ">", ">=", "<", "<="}
 
 func c04Random(r *rt.Rand) (*gen.Node, string) {
-	switch r.Intn(8) {
+	switch r.Intn(9) {
+	case 8: // chains that mix operators, with constant sub-expressions still unfolded as operands
+		ops := []string{"+", "*", "-", "/"}
+		x := c04Leaves[9+r.Intn(3)] // row leaf
+		konst := func() *gen.Node {
+			if r.Bool() {
+				return c04Leaves[r.Intn(9)]
+			}
+			return gen.Bin(ops[r.Intn(3)], c04Leaves[r.Intn(9)], c04Leaves[r.Intn(9)])
+		}
+		t := x
+		n := r.Range(2, 4)
+		for i := 0; i < n; i++ {
+			if r.Chance(1, 5) {
+				t = gen.Bin(ops[r.Intn(3)], konst(), t)
+			} else {
+				t = gen.Bin(ops[r.Intn(3)], t, konst())
+			}
+		}
+		if r.Chance(1, 3) {
+			t = gen.Bin(cmpNOps[r.Intn(6)], t, c04Leaves[r.Intn(9)])
+		}
+		return t, "mixedchain"
 	case 0, 1: // re-association chains
 		op := []string{"+", "*"}[r.Intn(2)]
 		x := c04Leaves[9+r.Intn(3)] // row leaf
@@ -452,7 +475,17 @@ func (k c04) fullQuery(c *rt.Ctx, tree *gen.Node, text, cat string) {
 	rec := c.Rec
 	isBool := tree.T == gen.TB
 	var q string
-	if isBool {
+	named := isBool && c.R.Chance(1, 2)
+	if named {
+		// the expression as a named select field used by the filter: the rewrite must leave
+		// what the name refers to intact (a negation over a comparison is the rewriter's food)
+		if c.R.Bool() {
+			tree = gen.Not(tree)
+			text = "!(" + text + ")"
+		}
+		q = "select key, " + text + " as f1 where f1 = true"
+		rec.Inc("fullquery_named_field")
+	} else if isBool {
 		q = "select * where " + text
 	} else {
 		q = "select key, " + text + " where true"
@@ -465,7 +498,11 @@ func (k c04) fullQuery(c *rt.Ctx, tree *gen.Node, text, cat string) {
 			rec.NotJudged("full-query witness: not evaluable by the reference (" + firstWords(env.Why) + ")")
 			return
 		}
-		if isBool {
+		if named {
+			if v.B {
+				want = append(want, []string{drive.Norm([]byte(p.K)), v.Norm()})
+			}
+		} else if isBool {
 			if v.B {
 				want = append(want, []string{drive.Norm([]byte(p.K)), drive.Norm([]byte(p.V))})
 			}
